@@ -89,8 +89,9 @@ probes! {
     P_ARITH_PANIC_FIRED = 50, "panic inside the element type's operator impl fired";
     P_ARITH_SUM_SOURCE = 51, "Sum / Product over a source of vectors of non-Copy elements";
     P_ARITH_ASSIGN_PANIC_CONTINUES = 52, "v += w interrupted by a panicking element operator, vector still used afterwards";
+    P_ARITH_ORD = 53, "reduce_min/max/partial_min/partial_max or V::min/max/partial_min/partial_max on non-Copy elements (losers destroyed)";
 }
-pub const N_PROBES: usize = 53;
+pub const N_PROBES: usize = 54;
 
 pub const N_OPK: usize = 80;
 
